@@ -108,6 +108,7 @@ def followups(prog, ref, nodes, tag):
         prog.append([tag + "t", "tt", ref])
     if nodes and is_wf(nodes):
         prog.append([tag + "c", "exact_card", ref])
+        prog.append([tag + "f", "card", ref])
         prog.append([tag + "o", "named", "and", ref, ref])
 
 
@@ -272,6 +273,21 @@ def judge(st, V):
             if impl != str(cnt):
                 V.violations.append(violation(PID, st, "model count of an accepted diagram differs from enumeration", confirmed=True,
                                               oracle={"expected": cnt, "observed": sx_str(impl)}, relation="exact_cardinality = popcount"))
+        return
+    elif op == "card":
+        # binary64 cardinality of an accepted diagram: for at most 10 variables the count is a small integer, exactly representable
+        b = bdd_nodes(call[1])
+        nv = b[0][0]
+        if impl == "PANIC":
+            V.violations.append(violation(PID, st, "cardinality() panicked on an accepted diagram", confirmed=True, relation="no panic"))
+            return
+        if nv <= 10:
+            import struct
+            cnt = sum(1 for x in raw_tt(b) if x)
+            want = "f:%016x" % struct.unpack("<Q", struct.pack("<d", float(cnt)))[0]
+            if impl != want:
+                V.violations.append(violation(PID, st, "cardinality() of an accepted diagram differs from enumeration", confirmed=True,
+                                              oracle={"expected": cnt, "expected_bits": want, "observed": sx_str(impl)}, relation="cardinality = popcount"))
         return
     elif op == "named":
         machinery_guard(st)
